@@ -185,8 +185,13 @@ def bodies(n):
     return names, forms
 
 
+N_TIMEOUTS = [0]
+
+
 def expand_checked(ctx, text, ident, witness, expect_error=False, budget=20, start=True, **kw):
     global evaluations
+    if N_TIMEOUTS[0] >= 3:
+        return None          # non-termination is established (3 witnesses): do not wait 20 s for every further case
     evaluations += 1
     if start:
         ctx.start_page("Tt")
@@ -196,6 +201,7 @@ def expand_checked(ctx, text, ident, witness, expect_error=False, budget=20, sta
         with quiet_stdout():
             out = ctx.expand(text, **kw)
     except Timeout:
+        N_TIMEOUTS[0] += 1
         failures[(ident, "timeout")] = {"ident": ident + "#bounded-terminates", "witness_class": "timeout",
                                         "what": f"expand did not return within {budget}s", "witness": witness}
         return None
